@@ -126,7 +126,8 @@ Theorem C10_set_default_partition : forall (v : ks_ver) (sh : ks_shape) (k : ks_
     kb_tt p = kh_tris sh /\ kb_vm p = ks_nseq (kh_nv sh) /\
     (kh_bs sh = true -> kb_tris p = kh_tris sh) /\
     ks_aligned (ks_nf_set_default v sh k) /\
-    (kk_dis (ks_nf_set_default v sh k) = None <-> kk_dis k = None).
+    (kk_dis (ks_nf_set_default v sh k) = None <-> kk_dis k = None) /\
+    kb_hf p = true.   (* hasFaces: the triangle list is written by a save right after it *)
 Proof. exact ks_nf_set_default_ok. Qed.
 Print Assumptions C10_set_default_partition.
 
@@ -289,37 +290,44 @@ Theorem C10_prepare_triparts_current : forall (ts : list tri) (s : ks_sp),
 Proof. exact ks_prepare_triparts_current. Qed.
 Print Assumptions C10_prepare_triparts_current.
 
-(* ... or it is regenerated (after SetDefaultPartition, after a reload): with at least one
-   partition (and no strips left) the regenerated assignment is complete and in range *)
+(* ... or it is regenerated (after SetDefaultPartition, after a reload): for partitions without
+   strips this is total, the regenerated assignment has one entry per triangle, every entry is a
+   partition index or -1, and it is -1 ("not assigned", as documented for GetShapePartitions) for
+   every triangle that no partition holds. No partition at all is fine. *)
 Theorem C10_prepare_triparts_regenerated : forall (ts : list tri) (s : ks_sp),
-  vlen ts <> vlen (kp_tp s) -> kp_parts s <> [] ->
+  vlen ts <> vlen (kp_tp s) ->
   Forall (fun p => kb_ns p = 0 /\ vlen (kb_tris p) < 2 ^ 31) (kp_parts s) ->
   exists s0, ks_sp_prepare_triparts ts s = Ok s0 /\ length (kp_parts s0) = length (kp_parts s) /\
     kp_mapped s0 = kp_mapped s /\ length (kp_tp s0) = length ts /\
-    Forall (fun pj => (0 <= pj < Z.of_nat (length (kp_parts s0)))%Z) (kp_tp s0).
+    Forall (fun pj => (-1 <= pj < Z.of_nat (length (kp_parts s0)))%Z) (kp_tp s0) /\
+    (forall i t, nth_error ts i = Some t ->
+       (forall p pt, In p (kp_parts s0) -> In pt (kb_tt p) -> ks_rot pt <> ks_rot t) ->
+       nth_error (kp_tp s0) i = Some (-1)%Z).
 Proof. exact ks_prepare_triparts_regen. Qed.
 Print Assumptions C10_prepare_triparts_regenerated.
+
+(* UpdateSkinPartitions with no partition left (SetDefaultPartition, DeletePartitions {0},
+   UpdateSkinPartitions) is inside the accepted domain and leaves every triangle unassigned *)
+Theorem C10_update_without_partitions :
+  ks_update_domain (fst ks_wit_nopart) (snd ks_wit_nopart) = true /\
+  ks_nf_update KFO3 (fst ks_wit_nopart) (snd ks_wit_nopart) = Ok (ks_mkSkin (ks_mkSP 0 [] true [(-1)%Z]) (Some []) []).
+Proof. exact ks_update_without_partitions_ok. Qed.
+Print Assumptions C10_update_without_partitions.
+
+Theorem C10_update_after_default_delete :
+  let sh := ks_mkShape [(0, 1, 2)] true 3 false in
+  let k0 := ks_mkSkin (ks_mkSP 0 [] true []) (Some []) [] in
+  bind (ks_nf_delete KFO3 [0] (ks_nf_set_default KFO3 sh k0)) (ks_nf_update KFO3 sh)
+  = Ok (ks_mkSkin (ks_mkSP 0 [] true [(-1)%Z]) (Some []) []).
+Proof. exact ks_default_delete_update_ok. Qed.
+Print Assumptions C10_update_after_default_delete.
 
 (* ------------------------------------------------------------------------------------------ *)
 (* Refuted: the statements without their hypotheses are false of the model. Every witness is
    replayed on the real code (corpus/C10/cases.txt) and recorded in known_findings.json. *)
 
-(* UpdateSkinPartitions is NOT total: without a partition every triangle claims partition 0
-   (GenerateTriPartsFromTrueTriangles value-initialises triParts to 0, not -1) and partBones[0]
-   does not exist; reachable through the API *)
-Theorem C10_update_total_refuted_no_partition :
-  ks_nf_update KFO3 (fst ks_wit_nopart) (snd ks_wit_nopart) = Fault.
-Proof. exact ks_update_without_partitions_faults. Qed.
-Print Assumptions C10_update_total_refuted_no_partition.
-
-Theorem C10_update_total_refuted_api_history :
-  let sh := ks_mkShape [(0, 1, 2)] true 3 false in
-  let k0 := ks_mkSkin (ks_mkSP 0 [] true []) (Some []) [] in
-  bind (ks_nf_delete KFO3 [0] (ks_nf_set_default KFO3 sh k0)) (ks_nf_update KFO3 sh) = Fault.
-Proof. exact ks_default_delete_update_faults. Qed.
-Print Assumptions C10_update_total_refuted_api_history.
-
-(* ... and not total with a dismember list shorter than the partition list when a split is needed *)
+(* UpdateSkinPartitions is NOT total with a dismember list shorter than the partition list when a
+   split is needed *)
 Theorem C10_update_total_refuted_short_dismember :
   ks_nf_update KFO3 (fst ks_wit_short) (snd ks_wit_short) = Fault.
 Proof. exact ks_update_short_dismember_faults. Qed.
@@ -341,15 +349,6 @@ Theorem C10_bone_slots_valid_refuted_sk :
 Proof. exact ks_bone_slots_wrap_sk. Qed.
 Print Assumptions C10_bone_slots_valid_refuted_sk.
 
-(* GetShapePartitions does NOT report -1 for a triangle that no partition holds once triParts is
-   regenerated: it reports partition 0 *)
-Theorem C10_get_unassigned_refuted :
-  let sh := ks_mkShape [(0, 1, 2); (2, 1, 3)] true 4 false in
-  let p := kb_set_tt (kb_set_vm ks_pb0 [0; 1; 2]) [(0, 1, 2)] in
-  exists info k', ks_nf_get KFO3 sh (ks_mkSkin (ks_mkSP 1 [p] true []) (Some [(1, 0)]) []) = Ok (info, [0; 0]%Z, k').
-Proof. exact ks_get_unassigned_as_zero. Qed.
-Print Assumptions C10_get_unassigned_refuted.
-
 (* ------------------------------------------------------------------------------------------ *)
 (* Non-vacuity: the accepted domains are inhabited, with non-trivial results. *)
 Example C10_update_accepts_example :
@@ -363,6 +362,12 @@ Example C10_update_domain_example :
   ks_update_domain (fst ks_wit_short) ks_wit_short_aligned = true /\
   ks_update_domain (fst ks_wit_wide) (snd ks_wit_wide) = true.
 Proof. exact ks_update_domain_example. Qed.
+
+Example C10_get_unassigned_example :
+  let sh := ks_mkShape [(0, 1, 2); (2, 1, 3)] true 4 false in
+  let p := kb_set_tt (kb_set_vm ks_pb0 [0; 1; 2]) [(0, 1, 2)] in
+  exists info k', ks_nf_get KFO3 sh (ks_mkSkin (ks_mkSP 1 [p] true []) (Some [(1, 0)]) []) = Ok (info, [0; -1]%Z, k').
+Proof. exact ks_get_unassigned_minus_one. Qed.
 
 Example C10_update_splits_example :
   exists k', ks_nf_update KFO3 (fst ks_wit_short) ks_wit_short_aligned = Ok k' /\
